@@ -116,6 +116,7 @@ type Map struct {
 	Vals []Value
 	idx  map[interface{}]int
 	dead int
+	nsym int
 }
 
 type MapIter struct {
